@@ -86,6 +86,11 @@ add("C12", "exploration",
     "Blocks documented as dropping tags (RationalResampler, RtlSdrDecode, AU codec, ...) are not judged. Tags on samples that never reach the output (FIR history tail) are expected to be absent.",
     "runtime monitoring: exactly-once oracle over uniquely tagged inputs", "3/C12", "drip-feed")
 
+add("C20", "exploration",
+    "Harness transmitter models (AX.25/HDLC framer with bitwise CRC, NRZI-S, continuous-phase Bell-202 AFSK 1200/2200 Hz at 44100/48000/50000 S/s; G3RUH scrambler s[n]=d[n]^s[n-12]^s[n-17], NRZI, 2-FSK +-3 kHz complex baseband at 50000/100000 S/s) generate transmissions of 1-8 frames with random and stuffing-heavy payloads of 10..300 bytes, 2-6 flags between frames, 20-100 preamble flags after random silence, random start phase and sub-sample symbol offset. They are fed through the real block chains of examples/ax25-1200-rx.rs (audio path: Hilbert(65) -> QuadratureDemod -> FftFilterFloat(low_pass 1100/100) -> add_const -> SymbolSync -> BinarySlicer -> NrziDecode -> HdlcDeframer(10,1500)) and examples/ax25-9600-rx.rs (FftFilter(low_pass_complex 12500/100) -> RationalResampler -> QuadratureDemod -> ZeroCrossing -> BinarySlicer -> NrziDecode -> Descrambler(0x21,0,16) -> HdlcDeframer) on Graph and MTGraph with default and 64-page streams. Oracle: packets popped = payloads sent, once, in order, identical on both runners.",
+    "Noiseless channel; the chains are mirrored in harness code from the examples (the example binaries themselves need dev-dependencies and files). Clock recovery of the 9600 chain is ZeroCrossing, as the property says.",
+    "runtime monitoring: end-to-end oracle with independent modulator models on both runners", "3/C20", "e2e")
+
 ALL = ["C%02d" % i for i in range(1, 21)]
 
 ENGINES = [
@@ -103,6 +108,8 @@ ENGINES = [
          kind_free_text="mode table in unprivileged children; SIGKILL crash points with acknowledgement pipe"),
     dict(name="robustness", path="harness/src/robust.rs", serves_properties=["C15"],
          kind_free_text="hostile content generators and exhaustive small-input families; panic/spin oracle"),
+    dict(name="e2e", path="harness/src/e2e.rs", serves_properties=["C20"],
+         kind_free_text="AFSK / G3RUH FSK modulators and the documented receive chains on both runners"),
     dict(name="hdlc", path="harness/src/hdlc.rs, hdlcprop.rs", serves_properties=["C13"],
          kind_free_text="HDLC transmitter model, reference deframer, clean and corrupted stream oracles"),
     dict(name="kernels", path="harness/src/kernels.rs", serves_properties=["C11"],
